@@ -96,6 +96,10 @@ def discharge_terms(items, z3_timeout_s=10, cvc5_timeout_s=20, procs=None):
     if not items:
         return []
     _TERMS = [(a, p, g) for _, a, p, g in items]
+    import gc
+
+    gc.collect()
+    gc.freeze()
     ctx = mp.get_context("fork")
     res = []
     with ctx.Pool(min(procs, len(items))) as pool:
